@@ -12,7 +12,7 @@ pub fn run(o: &Opts) -> i32 {
     }
     let sz = sizes(&o.tier);
     let cases = build(
-        &CorpusSpec { seed: o.seed, generated: sz.generated, mutated: sz.mutated, layout: sz.layout },
+        &CorpusSpec { seed: o.seed, generated: sz.generated, mutated: sz.mutated, layout: sz.layout, literal: sz.literal },
         &o.repo,
         &o.verif,
     );
@@ -39,7 +39,36 @@ pub fn run(o: &Opts) -> i32 {
         n[k] += 1;
         per_origin.entry(cases[*ci].origin).or_default()[k] += 1;
     }
+    // Arguments that a program does not name are not arguments of the program: where both the
+    // exact map and its superset compile, they must compile to the same bytes (errors not judged).
+    let mut extra_violations = Vec::new();
+    let mut extra_pairs_checked = 0u64;
+    for (ci, case) in cases.iter().enumerate() {
+        for (sup, exact) in case.extra_pairs() {
+            for debug in [false, true] {
+                if let (Some(a @ ops::Outcome::Ok { .. }), Some(b @ ops::Outcome::Ok { .. })) = (golden.get(&(ci, exact, debug)), golden.get(&(ci, sup, debug))) {
+                    extra_pairs_checked += 1;
+                    if a.key() != b.key() {
+                        let path = o.verif.join("replays").join(format!("C19-G-{}-{}-{}.json", o.seed, ci, debug as u8));
+                        let scenario = format!("ExtraArgs({},debug={debug})", case.id);
+                        let doc = serde_json::json!({
+                            "property": "C19", "leg": "G", "class": "MISMATCH(ExtraArgs)", "scenario": scenario,
+                            "detail": format!("{}: with the exact argument map {} but with unused extra entries {}", case.id, a.key(), b.key()),
+                            "verif_seed": o.seed, "debug": debug, "exact_index": exact, "superset_index": sup,
+                            "program": case.to_json(), "expected": a.to_json(), "observed": b.to_json(),
+                        });
+                        if let Some(dir) = path.parent() {
+                            std::fs::create_dir_all(dir).ok();
+                        }
+                        std::fs::write(&path, serde_json::to_string_pretty(&doc).unwrap()).ok();
+                        extra_violations.push(serde_json::json!({"class": "MISMATCH(ExtraArgs)", "scenario": scenario, "replay": path, "doc": doc}));
+                    }
+                }
+            }
+        }
+    }
     let doc = serde_json::json!({
+        "violations": extra_violations, "extra_argument_pairs_checked": extra_pairs_checked,
         "seed": o.seed, "tier": o.tier, "cases": cases.len(),
         "ok": n[0], "err": n[1], "panic": n[2],
         "per_origin": per_origin.iter().map(|(k, v)| (k.to_string(), serde_json::json!(v))).collect::<serde_json::Map<_, _>>(),
